@@ -93,6 +93,8 @@ impl<S: SelfEmulation> TranscriptGadget<S> {
         scalar: &AssignedNative<S::F>,
     ) -> Result<(), Error> {
         self.input_len += 1;
+        #[cfg(feature = "verif-hooks")]
+        super::verif_hooks::transcript_log(super::verif_hooks::TranscriptEvent::CommonScalar);
         let state = self.sponge_state.as_mut().expect("You must init the transcript gadget");
         self.sponge_chip.absorb(layouter, state, std::slice::from_ref(scalar))
     }
@@ -106,6 +108,10 @@ impl<S: SelfEmulation> TranscriptGadget<S> {
         let pis = self.curve_chip.as_public_input(layouter, point)?;
 
         self.input_len += pis.len();
+        #[cfg(feature = "verif-hooks")]
+        super::verif_hooks::transcript_log(super::verif_hooks::TranscriptEvent::CommonPoint(
+            pis.len(),
+        ));
 
         let state = self.sponge_state.as_mut().expect("You must init the transcript gadget");
         self.sponge_chip.absorb(layouter, state, &pis)
@@ -116,6 +122,8 @@ impl<S: SelfEmulation> TranscriptGadget<S> {
         &mut self,
         layouter: &mut impl Layouter<S::F>,
     ) -> Result<AssignedNative<S::F>, Error> {
+        #[cfg(feature = "verif-hooks")]
+        super::verif_hooks::transcript_log(super::verif_hooks::TranscriptEvent::Squeeze);
         let state = self.sponge_state.as_mut().expect("You must init the transcript gadget");
         self.sponge_chip.squeeze(layouter, state)
     }
@@ -133,6 +141,8 @@ impl<S: SelfEmulation> TranscriptGadget<S> {
             Ok(point) => Value::known(point),
             Err(_) => Value::known(S::C::default()),
         };
+        #[cfg(feature = "verif-hooks")]
+        super::verif_hooks::transcript_log(super::verif_hooks::TranscriptEvent::ReadPoint);
 
         let assigned_point = self.curve_chip.assign(layouter, point)?;
         self.common_point(layouter, &assigned_point)?;
@@ -153,6 +163,8 @@ impl<S: SelfEmulation> TranscriptGadget<S> {
             Ok(scalar) => Value::known(scalar),
             Err(_) => Value::known(S::F::ZERO),
         };
+        #[cfg(feature = "verif-hooks")]
+        super::verif_hooks::transcript_log(super::verif_hooks::TranscriptEvent::ReadScalar);
 
         let assigned_scalar = self.scalar_chip.assign(layouter, scalar)?;
         self.common_scalar(layouter, &assigned_scalar)?;
